@@ -298,6 +298,13 @@ PREFIX (_equal) (region_type_t *reg1, region_type_t *reg2)
     box_type_t *rects1;
     box_type_t *rects2;
 
+    /* The extents of an empty region are not meaningful (they keep whatever
+     * corner the region had before it became empty), so all empty regions
+     * compare equal and an empty region equals nothing else.
+     */
+    if (PIXREGION_NIL (reg1) || PIXREGION_NIL (reg2))
+	return PIXREGION_NIL (reg1) && PIXREGION_NIL (reg2);
+
     if (reg1->extents.x1 != reg2->extents.x1)
 	return FALSE;
     
